@@ -60,25 +60,25 @@ type Rule struct {
 
 // Exec is one executed action in the server-side log.
 type Exec struct {
-	Seq      uint64
-	Nonce    uint64
-	Kind     string // Get, Put, Delete, Append, Increment, CheckAndPut, ScanOpen, ScanNext, ScanClose, ScanRenew, Probe, Meta
-	Table    string
-	Row      []byte
-	Region   string // region name carried by the request
-	Server   int
-	Conn     int
-	CallID   uint32
-	Multi    uint64 // sequence number of the enclosing multi request, 0 if single
-	MultiPos int    // position of the action within its region action
-	RegPos   int    // position of the region action in the multi
-	Err      string // exception class sent, "" if ok
-	ErrLevel string
-	Applied  bool   // the model state was changed / read successfully
-	Cells    []Cell // cells returned
-	Time     int64
-	ReqSeq   int
-	ScannerID uint64
+	Seq                       uint64
+	Nonce                     uint64
+	Kind                      string // Get, Put, Delete, Append, Increment, CheckAndPut, ScanOpen, ScanNext, ScanClose, ScanRenew, Probe, Meta
+	Table                     string
+	Row                       []byte
+	Region                    string // region name carried by the request
+	Server                    int
+	Conn                      int
+	CallID                    uint32
+	Multi                     uint64 // sequence number of the enclosing multi request, 0 if single
+	MultiPos                  int    // position of the action within its region action
+	RegPos                    int    // position of the region action in the multi
+	Err                       string // exception class sent, "" if ok
+	ErrLevel                  string
+	Applied                   bool   // the model state was changed / read successfully
+	Cells                     []Cell // cells returned
+	Time                      int64
+	ReqSeq                    int
+	ScannerID                 uint64
 	MoreInRegion, MoreResults *bool
 	// decoded request, for the wire-content oracle (C05)
 	ReqGet   *pb.Get
@@ -95,16 +95,17 @@ type Exec struct {
 
 // ServerConn is the server side of one client connection.
 type ServerConn struct {
-	ID       int
-	Server   *Server
-	C        *Cluster
-	Parser   StreamParser
-	Pending  []*Request
-	Out      [][]byte
-	Codec    bool
-	callIDs  map[uint32]bool
-	FramesIn int
-	Closed   bool
+	ID           int
+	Server       *Server
+	C            *Cluster
+	Parser       StreamParser
+	Pending      []*Request
+	Out          [][]byte
+	Codec        bool
+	callIDs      map[uint32]bool
+	FramesIn     int
+	Closed       bool
+	MasterConn   bool
 	checkedHello bool
 }
 
@@ -143,8 +144,10 @@ func (sc *ServerConn) Feed(b []byte) {
 		sc.checkedHello = true
 		h := sc.Parser.Hello
 		want := "ClientService"
-		if sc.Server.Idx == c.Master && sc.Server.Idx != -1 && h.GetServiceName() == "MasterService" {
+		if h.GetServiceName() == "MasterService" {
+			// any server may be (or have been) the master
 			want = "MasterService"
+			sc.MasterConn = true
 		}
 		if h.GetServiceName() != want {
 			c.Violate("C05 hello conn=%d: service name %q", sc.ID, h.GetServiceName())
